@@ -386,6 +386,32 @@ func c12RunList(r *vcore.Run, c c12ListCase) {
 		r.Violate("list", fp+"/consumer-called-after-stop", c, "no calls after stop/error", res.Post)
 	}
 	r.Outcome(fmt.Sprintf("list items=%d err=%v", len(want), wantErr))
+	// a backend may deliver the name it failed at together with its error: whatever name accompanies the
+	// error the consumer sees has been through the policy like any other
+	if c.ErrAfter >= 0 && c.StopAfter == 0 {
+		b2 := newRecBackend()
+		b2.Repos = c.Repos
+		b2.ListErrAfter, b2.ListErr, b2.ListErrItem = c.ErrAfter, c12BackendErr, true
+		var w2 ociregistry.Interface
+		if c.Wrapper == "Select" {
+			w2 = ocifilter.Select(b2.Funcs(), func(n string) bool { return allowed[n] })
+		} else {
+			w2 = ocifilter.AccessChecker(b2.Funcs(), func(n string, k ocifilter.AccessKind) error {
+				if n == "*" || allowed[n] {
+					return nil
+				}
+				return &c12Deny{n, k}
+			})
+		}
+		r.Guard("list", fp+"/error-pair", c, func() {
+			w2.Repositories(context.Background(), c.After)(func(name string, err error) bool {
+				if err != nil && name != "" && !allowed[name] {
+					r.Violate("list", fp+"/rejected-repository-delivered-with-the-error", c, "no rejected name reaches the consumer, with or without an error", fmt.Sprintf("%q, %v", name, err))
+				}
+				return err == nil
+			})
+		})
+	}
 }
 
 func c12Check(r *vcore.Run) vcore.Coverage {
@@ -450,7 +476,12 @@ func c12Check(r *vcore.Run) vcore.Coverage {
 		if m == "MountBlob" {
 			star = []c12Inv{{m, "*", "a"}, {m, "a", "*"}}
 		}
-		for _, inv := range star {
+		// ... and the empty name (a mount request without a source, say) is a name like any other
+		empty := []c12Inv{{M: m, Repo: ""}}
+		if m == "MountBlob" {
+			empty = []c12Inv{{m, "a", ""}, {m, "", "a"}}
+		}
+		for _, inv := range append(star, empty...) {
 			for _, allowed := range [][]string{nil, {"a"}, {"a", "b", "c"}} {
 				c12Run(r, "seq", c12Case{Wrapper: "Select", Seq: []c12Inv{inv}, Allowed: allowed})
 				evals++
